@@ -2,6 +2,8 @@ package c01
 
 import (
 	"context"
+	"crypto/tls"
+	"crypto/x509"
 	"errors"
 	"fmt"
 	"io"
@@ -140,6 +142,7 @@ type side struct {
 	errKind   string // "", "mismatch", "timeout", "error"
 	rPeer     peer.ID
 	rKey      crypto.PubKey
+	peerCert  *x509.Certificate // TLS: the certificate this side received from its peer
 	wrote     bool
 	dataOK    bool // the first Read returned exactly what the partner wrote
 	dataBogus bool // the first Read returned bytes the partner never wrote
@@ -196,6 +199,11 @@ func (s *side) run() {
 	s.hsOK = true
 	s.rPeer = sc.RemotePeer()
 	s.rKey = sc.RemotePublicKey()
+	if cs, ok := sc.(interface{ ConnectionState() tls.ConnectionState }); ok {
+		if pcs := cs.ConnectionState().PeerCertificates; len(pcs) > 0 {
+			s.peerCert = pcs[0]
+		}
+	}
 	// every side of a run waits a different time, so that no two tasks wake at the same virtual instant
 	wait := 5*time.Second + s.timeout/100
 	if !s.init {
@@ -500,6 +508,9 @@ func markMustFail(s *session) {
 	recv := s.R
 	if e.dir == 1 {
 		recv = s.I
+	}
+	if m.restored() {
+		return
 	}
 	switch e.kind {
 	case edFlip, edTruncFix, edTruncRaw, edExtendFix, edDrop, edSwap, edReplay, edReplayDir, edCut:
